@@ -108,6 +108,19 @@ CHECKS["C15"] = dict(
     technique="bounded-exhaustive metamorphic enumeration of all single (pairwise) renamings into a collision-biased name pool, AST comparison",
 )
 
+CHECKS["C16"] = dict(
+    category="exploration",
+    text="Complete product of support-import constructs x positions x annotate: 11 type forms (nullable, nullable class, union, tuple, two function types, Any, nested tuple, function returning nullable, union with nullable member, plain) x 15 positions (variable at top level / in a function / in a method / in a loop, parameter, method parameter, return, method return, field, class argument, if-, match- and handle-assigned variable, inferred variable, two uses); sqrt in 15 positions (initialiser, print, function / method body, field initialiser, default argument, condition, loop, match arm, handle arm, interpolation, argument, operand, twice, unused function); plain and conditional type aliases, interfaces (with fields, nested, with nullable results, everything together); 13 interactions with user imports and user names equal to the support names (import math [as], from typing/abc import ..., variables / functions / parameters / classes named math, Optional, Union, ABC); every type form combined with sqrt and an interface; and the whole M0 pool. Oracle: symtable free-name analysis of the emitted module (unbound globals must be builtins), support imports at module top and once, user imports reproduced, executed outputs raise no NameError.",
+    design_ref="DESIGN.md §4 C16", note="The generated sources have no free names of their own except their user imports, so any unbound global of the output is a missing import.",
+    technique="bounded-exhaustive constructs x positions x configurations enumeration, static free-name analysis of the output (CPython symtable/ast)",
+)
+CHECKS["C17"] = dict(
+    category="exploration",
+    text="All classes with <= 3 (quick; 4 thorough) members in EVERY order over 10 member kinds (field with default, nullable field, method with a default parameter, method without arguments, variadic method, operator definitions + = <, explicit __init__ with a default, doc string) x 6 class-argument lists (none, def, plain, def + default, fin + def, def + vararg) x 7 parent lists (none, plain, with argument, two in both orders, literal argument, abstract type); all functions and methods with <= 3 parameters over {plain, default Int, default Str, vararg}; both annotate settings. From the emitted module the class, its bases in order, every method with parameter names, defaults (by value) and star marker, the constructor and the class-level fields are extracted with `ast` and compared with the list derived from the source: nothing dropped, duplicated or renamed, methods in source order, fields in source order, operators as dunder methods, __init__(self, <class arguments>).",
+    design_ref="DESIGN.md §4 C17", note="Fields may be hoisted above methods; only relative order within fields and within methods is judged. Runs with the hash seed pinned (order dependence on the seed is C12's).",
+    technique="bounded-exhaustive enumeration of definition shapes, signature extraction from the output with CPython ast",
+)
+
 REASON_PENDING = "check not built yet in this session (see DESIGN.md Appendix D build order); nothing is claimed for it"
 
 
